@@ -347,6 +347,7 @@ func init() {
 			"of rejections beyond kind, bounds and the loops' verdict classes.",
 		Assumptions: []string{wellFormed},
 		Rules: []func(*Ctx){
+			func(c *Ctx) { c.ruleDescend("R-DESCEND"); c.R.Floor("R-DESCEND", 2) },
 			func(c *Ctx) { c.ruleEffect("R-EFFECT", c.entryData("ValidateCompatibility"), false, true) },
 			func(c *Ctx) { c.ruleOverlap("R-OVERLAP") },
 			func(c *Ctx) { c.ruleKindGate("R-KINDGATE") },
@@ -420,6 +421,7 @@ func init() {
 			"R-TRUNC - the output file is written truncating (os.WriteFile / os.Create, or os.OpenFile with O_TRUNC / O_APPEND / O_EXCL). NOT decided: gofmt validity of the output for arbitrary identifier spellings; YAML null properties.",
 		Assumptions: []string{"a schema file argument is given (the property's premise)"},
 		Rules: []func(*Ctx){
+			func(c *Ctx) { c.ruleRuneSlice("R-RUNESLICE"); c.R.Floor("R-RUNESLICE", 1) },
 			func(c *Ctx) { c.ruleArgsIndex("R-INDEX") },
 			func(c *Ctx) { c.ruleTrunc("R-TRUNC"); c.R.Floor("R-TRUNC", 1) },
 			func(c *Ctx) {
